@@ -135,6 +135,9 @@ func (e *c15env) call(svcName, rpc, shape string, mayChange bool, f func() (any,
 				// the awaiting cache drops entries five minutes after they were saved: not an effect of this request
 				r.Count("c15_awaiting_entries_expired_during_a_call", len(gone))
 			} else if ok, why := svc.SameOrOnlyTipsDropped(before, after2); !ok && after2.Whole == after.Whole {
+				if only {
+					why += "; first seen " + e.ages(gone) + " ago"
+				}
 				r.Violate("C15", fmt.Sprintf("rejected-request-changed-state/%s.%s", svcName, rpc), fmt.Sprintf("%s.%s returned %v for request shape [%s] but ledger / awaiting cache / peer table changed: %s", svcName, rpc, err, shape, why), map[string]any{"service": svcName, "rpc": rpc, "shape": shape})
 			} else if why == "tips dropped" {
 				r.Count("c15_refused_requests_that_dropped_invalid_tips", 1)
@@ -171,6 +174,18 @@ func (e *c15env) allOld(keys []string) bool {
 		}
 	}
 	return true
+}
+
+func (e *c15env) ages(keys []string) string {
+	var out []string
+	for _, k := range keys {
+		if t, ok := e.firstSeen[k]; ok {
+			out = append(out, time.Since(t).Round(time.Second).String())
+		} else {
+			out = append(out, "never")
+		}
+	}
+	return fmt.Sprint(out)
 }
 
 func firstRepoFrame() string {
